@@ -25,6 +25,13 @@ def setup():
         if rc != 0:
             print(common.tail(out))
             return 1
+        common.prepare_baseline_lean()
+        common.use_lean("baseline")
+        rc, out = common.lake_build(["Glas", "driver"])
+        common.use_lean("main")
+        if rc != 0:
+            print(common.tail(out))
+            return 1
     print(f"setup ok in {time.time() - t0:.0f}s")
     return 0
 
@@ -54,22 +61,71 @@ def main(argv):
     if replay:
         return mod.replay(prop, replay)
     res = Result(prop, tier, seed)
+    relevant = common.groups_of(prop)
+    fallbacks = {}
+
+    def run_module(r, seeds):
+        try:
+            for sd in seeds:
+                mod.run(prop, r, tier, sd)
+                if r.broken or r.has_new_violation():
+                    break
+        except Broken as b:
+            r.add_broken(b.what, b.detail)
+        except Exception:
+            r.add_broken("check crashed (machinery error)", traceback.format_exc())
+
+    # more inputs whenever a model other than the freshly translated one carries the proof
+    more_seeds = [seed, seed + 7919, seed + 15838]
     try:
         # 1. regenerate + rebuild from /repo's working tree (shared, serialised)
         with Lock():
             try:
                 common.build_xlate()
-                res.extra["xlate_log"] = common.run_xlate()[-2000:]
+                xlog, fallbacks = common.run_xlate()
+                res.extra["xlate_log"] = xlog[-2000:]
             except Broken as b:
-                res.add_broken(b.what, b.detail)
+                if relevant:
+                    res.add_broken(b.what, b.detail)
+                else:
+                    res.extra["xlate_log"] = "translation failed (no generated part in this property's model): " + b.detail[-400:]
             try:
                 common.build_harness()
             except Broken as b:
                 res.add_broken(b.what, b.detail)
                 return res.finish()
-        mod.run(prop, res, tier, seed)
-    except Broken as b:
-        res.add_broken(b.what, b.detail)
     except Exception:
         res.add_broken("check crashed (machinery error)", traceback.format_exc())
+        return res.finish()
+    unread = {g: r for g, r in fallbacks.items() if g in relevant}
+    if unread:
+        res.extra["translation"] = {"unreadable_groups": unread,
+                                    "model_used": "committed model of the pinned source (xlate/baseline) for these groups, tied by the correspondence run only"}
+        res.assumptions.append("the translator could not read " + ", ".join(sorted(unread)) + " in the current source (" + "; ".join(unread.values())[:300] +
+                               "): for these parts the committed model of the pinned source carries the proof and the correspondence run (three seeds) is the only tie")
+    if not res.broken:
+        run_module(res, more_seeds if unread else [seed])
+    # 2. the regenerated model was rejected (an obligation about it fails, or it disagrees with the implementation)
+    #    and no concrete failing input was found: the committed model of the pinned source is the second candidate —
+    #    the property is shown when ONE model is both proved and in correspondence with the implementation
+    if relevant and res.broken and not res.has_new_violation() and common.gen_differs_from_baseline():
+        first = [w for w, _ in res.broken]
+        res2 = Result(prop, tier, seed)
+        res2.t0 = res.t0
+        try:
+            with Lock(".lake.lock"):
+                common.prepare_baseline_lean()
+            common.use_lean("baseline")
+            run_module(res2, more_seeds)
+        finally:
+            common.use_lean("main")
+        res2.extra["translation"] = {"regenerated_model_rejected_by": first, "regenerated_files_differing": common.gen_differs_from_baseline(),
+                                     "model_used": "committed model of the pinned source (xlate/baseline), tied by the correspondence run only"}
+        if res2.broken or res2.has_new_violation():
+            res2.broken = res.broken + res2.broken
+        else:
+            res2.assumptions.append("the model regenerated from the current source was rejected (" + "; ".join(first)[:300] + "); the committed model of the pinned "
+                                    "source is proved and agrees with the implementation on every input of three seeds: the change is taken as a behaviour-preserving rewrite")
+            log(f"[{prop}] regenerated model rejected ({'; '.join(first)[:200]}); committed model proved and in correspondence")
+        return res2.finish()
     return res.finish()
